@@ -294,6 +294,8 @@ type scenario struct {
 	jitter     bool
 	emptyCalls bool
 	jitterUs   int
+	wire       int // > 0: run over the real kafka.Transport against this many byte-level brokers
+	moves      []leaderMove
 	sinkDelay  map[string]time.Duration // event key ("PW.NewBatch", "PW.Detach:timer", "Q.Get:batch", "B.TimerFire") -> stall inside that critical section
 }
 
@@ -623,6 +625,68 @@ func isTemporary(c int16) bool {
 	return false
 }
 
+// wire: the Writer over its real Transport against byte-level brokers; partition leaders move while batches are in
+// flight (the old leader answers NOT_LEADER_FOR_PARTITION until the Transport's metadata refresh routes the retries to
+// the new one), plus the usual fault script on the leaders.
+func (b *builder) wireScenario(i int) *scenario {
+	r := b.r
+	sc := &scenario{name: "wire" + strconv.Itoa(i), bs: 1 + r.Intn(3), bb: 1 << 20, ma: 6, async: i%3 == 2, compl: true, wtopic: "t",
+		timeout: time.Duration(1+r.Intn(3)) * time.Millisecond, nparts: map[string]int{"t": 1 + r.Intn(3)}, faults: map[tpKey][]fault{}, closeAt: -1,
+		wire: 2 + r.Intn(2), jitter: true, jitterUs: 800}
+	if i%4 == 3 {
+		sc.wtopic = ""
+		sc.nparts = map[string]int{"a": 1 + r.Intn(2), "b": 1 + r.Intn(2)}
+	}
+	var topics []string
+	for t := range sc.nparts {
+		topics = append(topics, t)
+	}
+	sort.Strings(topics)
+	for c := 0; c < 2+r.Intn(2); c++ {
+		var calls []callSpec
+		for j := 0; j < 3+r.Intn(3); j++ {
+			b.nextC++
+			cs := callSpec{id: b.nextC}
+			for k := 0; k < 1+r.Intn(3); k++ {
+				tname := topics[r.Intn(len(topics))]
+				topic := ""
+				if sc.wtopic == "" {
+					topic = tname
+				}
+				cs.msgs = append(cs.msgs, b.mkMsg(40+r.Intn(20), topic, r.Intn(sc.nparts[tname]), r.Intn(6) == 0))
+			}
+			calls = append(calls, cs)
+		}
+		sc.callers = append(sc.callers, calls)
+	}
+	// leader moves after a few produce requests, on random partitions
+	nm := 1 + r.Intn(3)
+	for k := 0; k < nm; k++ {
+		tname := topics[r.Intn(len(topics))]
+		sc.moves = append(sc.moves, leaderMove{after: 1 + r.Intn(8), topic: tname, part: r.Intn(sc.nparts[tname]), bounce: i%2 == 1 && k == 0})
+	}
+	// a few faults on the leaders (acknowledgement lost = connection dies after the append; temporary / permanent codes)
+	for _, t := range topics {
+		for p := 0; p < sc.nparts[t]; p++ {
+			var q []fault
+			for k := 0; k < r.Intn(4); k++ {
+				switch x := r.Intn(10); {
+				case x < 6:
+					q = append(q, fault{kind: "ok"})
+				case x < 8:
+					q = append(q, fault{kind: "kerr", code: temporaryCodes[r.Intn(len(temporaryCodes))]})
+				case x < 9:
+					q = append(q, fault{kind: "kerr", code: permanentCodes[r.Intn(len(permanentCodes))], msg: true})
+				default:
+					q = append(q, fault{kind: "lostack"})
+				}
+			}
+			sc.faults[tpKey{t, p}] = q
+		}
+	}
+	return sc
+}
+
 // ---------------------------------------------------------------- running one scenario
 
 type result struct {
@@ -664,6 +728,20 @@ func run(sc *scenario, out *bufio.Writer) {
 	}
 	w.Compression = kafka.Compression(opt % 5)
 	f.wantAcks, f.wantAttrs = int16(w.RequiredAcks), int16(w.Compression)
+	var wc *wireCluster
+	if sc.wire > 0 {
+		wc = newWireCluster(f, sc.wire, sc.nparts, append([]leaderMove(nil), sc.moves...))
+		tr := &kafka.Transport{Dial: wc.Dial, MetadataTTL: 2 * time.Millisecond, IdleTimeout: time.Second, DialTimeout: time.Second}
+		w.Transport, w.Addr = tr, wc.bootAddr()
+		w.WriteBackoffMin, w.WriteBackoffMax = 2*time.Millisecond, 6*time.Millisecond
+		defer func() {
+			tr.CloseIdleConnections()
+			wc.close()
+			wireObs.scenarios++
+			wireObs.misrouted += wc.misrouted
+			wireObs.produce += wc.nprod
+		}()
+	}
 	if sc.compl {
 		w.Completion = func(msgs []kafka.Message, err error) {
 			cbmu.Lock()
@@ -897,28 +975,42 @@ func run(sc *scenario, out *bufio.Writer) {
 	} else if sc.closeAt < 0 && sc.special != "closewin" {
 		deadline := time.Now().Add(sc.timeout + 2*time.Second)
 		for {
+			// accepted messages whose batch has not been attempted yet (from the hook events: PW.Add binds (call, index)
+			// to a batch, PW.Attempt names the batch) — an attempt that dies before it reaches a broker still counts
 			unsent = 0
-			okcalls := map[int]bool{}
+			okcalls := map[string]int{}
 			rmu.Lock()
 			for _, r := range results {
 				if r.code == "ok" || strings.HasPrefix(r.code, "werr") {
-					okcalls[r.call] = true
-				}
-			}
-			rmu.Unlock()
-			f.mu.Lock()
-			for _, calls := range sc.callers {
-				for _, c := range calls {
-					if okcalls[c.id] {
-						for _, m := range c.msgs {
-							if !f.attempted[m.key] {
-								unsent++
+					for ci := range live {
+						for _, lc := range live[ci] {
+							if lc.spec.id == r.call {
+								okcalls[lc.ptr] = len(lc.msgs)
 							}
 						}
 					}
 				}
 			}
-			f.mu.Unlock()
+			rmu.Unlock()
+			batchOf := map[string]string{}
+			attempted := map[string]bool{}
+			for _, e := range kafka.VerifSnapshot() {
+				switch e.Kind {
+				case "PW.Add":
+					batchOf[e.Args[2]+"/"+e.Args[3]] = e.Args[1]
+				case "PW.Attempt":
+					attempted[e.Args[1]] = true
+				case "PW.NewBatch":
+					delete(attempted, e.Args[1]) // the recorder id of a freed batch may be reused
+				}
+			}
+			for ptr, n := range okcalls {
+				for k := 0; k < n; k++ {
+					if b, ok := batchOf[ptr+"/"+strconv.Itoa(k)]; !ok || !attempted[b] {
+						unsent++
+					}
+				}
+			}
 			if unsent == 0 || time.Now().After(deadline) {
 				break
 			}
@@ -933,6 +1025,51 @@ func run(sc *scenario, out *bufio.Writer) {
 		stuck = true
 	}
 	evs := kafka.VerifStop()
+	if sc.wire > 0 {
+		// Over a real connection the broker cannot know whether its answer arrived: an acknowledgement it sent for an
+		// attempt that the client then saw fail (connection torn down under the multiplexed Transport) is an
+		// acknowledgement lost in transit.  The broker's record of such an attempt is corrected to `lost1` (and a rejection
+		// whose answer did not arrive to `lost0`).
+		keysOf := map[string][]string{} // raw batch id → keys in add order
+		keyAt := map[string]string{}
+		for ci := range live {
+			for _, lc := range live[ci] {
+				for k, m := range lc.spec.msgs {
+					keyAt[lc.ptr+"/"+strconv.Itoa(k)] = m.key
+				}
+			}
+		}
+		for idx := range evs {
+			e := &evs[idx]
+			switch e.Kind {
+			case "PW.NewBatch":
+				delete(keysOf, e.Args[1])
+			case "PW.Add":
+				keysOf[e.Args[1]] = append(keysOf[e.Args[1]], keyAt[e.Args[2]+"/"+e.Args[3]])
+			case "Br.Produce":
+				if e.Args[3] != "acked" && !strings.HasPrefix(e.Args[3], "k") {
+					continue
+				}
+				batch := ""
+				for b, ks := range keysOf {
+					if strings.Join(ks, ",") == e.Args[2] {
+						batch = b
+					}
+				}
+				for j := idx + 1; j < len(evs) && batch != ""; j++ {
+					if evs[j].Kind == "PW.AttemptDone" && evs[j].Args[1] == batch {
+						got := evs[j].Args[3]
+						if e.Args[3] == "acked" && got != "ok" {
+							e.Args[3] = "lost1"
+						} else if e.Args[3] != "acked" && got != e.Args[3] {
+							e.Args[3] = "lost0" // a rejection whose answer did not arrive: nothing applied, transport error
+						}
+						break
+					}
+				}
+			}
+		}
+	}
 	if callersStuck || unsent > 0 || stuck {
 		failedScenarios++
 	}
@@ -958,6 +1095,9 @@ var timerObs = &timerStats{minSlack: time.Hour}
 // scenarios in which something hung (callers, unsent messages, Close): each costs seconds of watchdog time, so the
 // driver stops generating new scenarios after a few of them
 var failedScenarios int
+
+// observation: produce requests over the real Transport, and how many reached a broker that had lost the leadership
+var wireObs struct{ scenarios, produce, misrouted int }
 
 func (t *timerStats) add(elapsed, timeout time.Duration) {
 	t.mu.Lock()
@@ -1036,6 +1176,11 @@ func renderEvents(evs []kafka.VerifEvent) string {
 	npw, nq, nb := 0, 0, 0
 	var parts []string
 	for _, e := range evs {
+		// only the Writer's own alphabet (a real Transport underneath records its T.* events in the same log)
+		if !(strings.HasPrefix(e.Kind, "W.") || strings.HasPrefix(e.Kind, "PW.") || strings.HasPrefix(e.Kind, "Q.") ||
+			strings.HasPrefix(e.Kind, "B.") || strings.HasPrefix(e.Kind, "Br.")) {
+			continue
+		}
 		a := append([]string(nil), e.Args...)
 		switch e.Kind {
 		case "W.Enter", "W.Empty", "W.CloseBegin", "W.CloseMarked", "W.CloseReturn":
@@ -1100,12 +1245,16 @@ func main() {
 	for i := 0; i < 10*extra && failedScenarios < 3; i++ {
 		run(b.qstall(i), out)
 	}
+	for i := 0; i < 12*extra && failedScenarios < 3; i++ {
+		run(b.wireScenario(i), out)
+	}
 	for i := 0; i < n && failedScenarios < 3; i++ {
 		run(b.random(i, thorough), out)
 	}
 	if failedScenarios >= 3 {
 		fmt.Fprintf(os.Stderr, "writer driver: %d scenarios hung (callers / unsent messages / Close); not generating further scenarios\n", failedScenarios)
 	}
+	fmt.Fprintf(out, "obs wire scenarios=%d produce_requests=%d answered_not_leader=%d\n", wireObs.scenarios, wireObs.produce, wireObs.misrouted)
 	fmt.Fprintf(out, "obs timer fires=%d earlier_than_timeout_minus_1ms=%d min(elapsed-timeout)=%s max(elapsed-timeout)=%s\n",
 		timerObs.n, timerObs.early, timerObs.minSlack, timerObs.maxLate)
 }
